@@ -157,5 +157,22 @@ def run(ctx):
                                  "expected": [(a, str(b_)) for a, b_, c in d[:4]] if back is not None else "the written RPU parses",
                                  "shape": sh})
                 ctx.count("mismatch=" + sh.split(":")[0])
+    # --- how much of the explored space the theorem covers ---------------------------------------
+    # model-only: evaluate the decidable hypothesis RpuWfB of C03.write_parse_sound on every structure reached
+    # (after the edit sequence) and the theorem's conclusion on the executable model. wf=1 & write=ok must give
+    # reparse=same (an instance of the theorem: anything else means the compiled model and the kernel-checked
+    # one differ); wf=0 cases are counted by the first failing conjunct: those are outside the theorem and are
+    # decided by the differential / direct oracles above only.
+    wl = ["rpu.opswf " + l.split(" ", 1)[1] for l in lines]
+    wo, _, _ = common.run_lines_sharded(common.MODEL_EXE, wl)
+    for l, o in zip(wl, wo):
+        if not o.startswith("wf="):
+            continue
+        f = dict(x.split("=") for x in o.split(" "))
+        ctx.count("theorem-hypothesis wf=%s%s" % (f["wf"], "" if f["wf"] == "1" else " (" + f["why"] + ")"))
+        if f["write"] == "ok":
+            ctx.count("theorem-covered written RPU" if f["wf"] == "1" else "outside-theorem written RPU (%s, reparse=%s)" % (f["why"], f["reparse"]))
+        if f["wf"] == "1" and f["write"] == "ok" and f["reparse"] != "same":
+            ctx.disagree("theorem instance (write_parse_sound) on the executable model", l[:3000], "reparse=same", o)
     ctx.sample(lines[3][:500])
     ctx.sample(lines[4][:500])
